@@ -4,7 +4,7 @@
 //!               StaticTag; all tags must be pairwise distinct, the static tag single-valued. Prints
 //!               one `INTERLEAVING` line per round (thread ids in tag order) so the stage can count
 //!               the distinct schedules Miri's seeded scheduler produced. Exit 3 = property broken.
-//!   containers  a few hundred operations on GroupingHashMap / GroupingVec / Interner (all-collide
+//!   containers [ops]  a few hundred operations on GroupingHashMap / GroupingVec / Interner (all-collide
 //!               hasher) / Matcher with inline checks - here Miri is the oracle (UB in the code
 //!               reached), the functional comparison proper lives in harness/c20.
 //!
@@ -96,7 +96,7 @@ impl std::hash::Hasher for ConstHasher {
     fn write(&mut self, _: &[u8]) {}
 }
 
-fn containers() -> bool {
+fn containers(nops: u32) -> bool {
     let mut ok = true;
     let mut rng = Lcg(20);
     // grouping containers against a stack of snapshots
@@ -104,7 +104,7 @@ fn containers() -> bool {
     let mut gv: GroupingVec<u32> = Default::default();
     let mut model: Vec<BTreeMap<usize, u32>> = vec![BTreeMap::new()];
     let mut ops = 0u32;
-    for i in 0..260u32 {
+    for i in 0..nops {
         let k = rng.next(6) as usize * 2;
         match rng.next(10) {
             0..=3 => {
@@ -182,7 +182,7 @@ fn containers() -> bool {
         Default::default();
     let pool = ["", "a", "b", "ab", "ba", "aba", "é", "éa", "aé", "λλ", "x", "xy"];
     let mut seen: Vec<(String, std::num::NonZeroU32)> = vec![];
-    for _ in 0..80 {
+    for _ in 0..(nops / 3).max(20) {
         let s = pool[rng.next(pool.len() as u64) as usize];
         let k = interner.get_or_intern(s);
         ops += 1;
@@ -211,7 +211,7 @@ fn containers() -> bool {
     // matcher
     let pattern = [0u8, 1, 0, 0, 1, 0];
     let matcher = Matcher::new(Nevec::new_with_tail(pattern[0], pattern[1..].to_vec()));
-    let text: Vec<u8> = (0..120).map(|_| rng.next(2) as u8).collect();
+    let text: Vec<u8> = (0..(nops / 2).max(40)).map(|_| rng.next(2) as u8).collect();
     let mut search = matcher.start();
     for i in 0..text.len() {
         let got = search.next(&text[i]);
@@ -230,9 +230,11 @@ fn main() {
     let mode = std::env::args().nth(1).unwrap_or_else(|| "tags".into());
     let ok = match mode.as_str() {
         "tags" => tags(),
-        "containers" => containers(),
+        "containers" => containers(
+            std::env::args().nth(2).and_then(|s| s.parse().ok()).unwrap_or(260),
+        ),
         _ => {
-            eprintln!("usage: c20 tags|containers");
+            eprintln!("usage: c20 tags|containers [ops]");
             std::process::exit(2)
         }
     };
